@@ -395,6 +395,12 @@ class Table(object):
         st.assume(n >= 0)
         body_st = st.copy()
         body_st.assume(dom)
+        et = st.elemtypes.get(it.get_id()) if (z3.is_expr(it) and not is_dict_items) else None
+        if et is not None:
+            # declared element class of the list (FIELDS elem_type): the element is an instance of it
+            from . import classes as C_
+            body_st.assume(z3.And(V.is_obj(elem), Val.ref(elem) >= 0, C_.subclass(C_.cls_of(Val.ref(elem)), et)))
+            body_st.settype(elem, et)
         # earlier elements may have allocated objects and changed reference-indexed ghost arrays: the body is run from
         # an arbitrary such state; that every run keeps the entries of pre-existing references is an obligation
         # (`map-frame`), which is what justifies keeping them across the whole map
